@@ -34,6 +34,8 @@ type c03D struct {
 	I   interface{}
 }
 
+type c03DRef *c03D
+
 type c03cfgA struct{ R0, R1 *c03A }
 type c03cfgB struct {
 	R0, R1 *c03B
@@ -196,7 +198,13 @@ func c03famD(n int) {
 	}
 	for i, nd := range nodes {
 		nd.P = get("n" + strconv.Itoa(i) + "P")
-		switch zzverif.Choose("n"+strconv.Itoa(i)+"I", 5) {
+		switch zzverif.Choose("n"+strconv.Itoa(i)+"I", 7) {
+		case 5: // a map held in the interface that contains itself (through an interface value)
+			m := map[string]interface{}{"v": int64(3)}
+			m["self"] = m
+			nd.I = m
+		case 6: // a pointer of a defined pointer type held in the interface
+			nd.I = c03DRef(get("n" + strconv.Itoa(i) + "Ir"))
 		case 1: // pointer held in the interface (possibly back to this node, possibly a typed nil)
 			nd.I = get("n" + strconv.Itoa(i) + "Ip")
 		case 2: // struct value held in the interface
@@ -481,6 +489,7 @@ func HarnessC03H2() { c03famH(2) }
 type c03Ref *c03I
 type c03RefMap map[string]*c03I
 type c03RefList []c03Ref
+type c03RefMap2 map[string]*c03I
 
 type c03I struct {
 	Val int64
@@ -488,6 +497,8 @@ type c03I struct {
 	Q   *c03I
 	M   c03RefMap
 	L   c03RefList
+	M2  map[string]*c03I // may be the same map object as M, under the unnamed type
+	M3  c03RefMap2       // ... and under a second defined map type
 }
 
 type c03cfgI struct{ R0, R1 c03Ref }
@@ -507,8 +518,13 @@ func c03famI(n int) {
 		nd.P = get("n" + strconv.Itoa(i) + "P")
 		nd.Q = get("n" + strconv.Itoa(i) + "Q")
 		if i == 0 {
-			if zzverif.Choose("n0M", 2) == 1 {
+			switch zzverif.Choose("n0M", 3) {
+			case 1:
 				nd.M = c03RefMap{"k": get("n0Mk")}
+			case 2:
+				nd.M = c03RefMap{"k": get("n0Mk")}
+				nd.M2 = map[string]*c03I(nd.M)
+				nd.M3 = c03RefMap2(nd.M)
 			}
 			if zzverif.Choose("n0L", 2) == 1 {
 				nd.L = c03RefList{get("n0L0")}
@@ -523,6 +539,9 @@ func c03famI(n int) {
 				out = append(out, reflect.ValueOf((*c03I)(r.P)), reflect.ValueOf(r.Q))
 				if r.M != nil {
 					out = append(out, reflect.ValueOf(r.M["k"]))
+				}
+				if r.M2 != nil {
+					out = append(out, reflect.ValueOf(map[string]*c03I(r.M)), reflect.ValueOf(r.M2), reflect.ValueOf(map[string]*c03I(r.M3)))
 				}
 				if len(r.L) > 0 {
 					out = append(out, reflect.ValueOf((*c03I)(r.L[0])))
